@@ -1,5 +1,123 @@
 ------------------------------ MODULE Mon_C17 ------------------------------
-EXTENDS Naturals, Sequences, TLC
-MonInit == [viol |-> <<>>]
-MonStep(m, e, l) == m
+(***************************************************************************)
+(* C17 - Master start-up and restart handling runs in order and gates      *)
+(* unsolicited data.                                                        *)
+(*                                                                         *)
+(* Per association the monitor keeps the set `need` of start-up            *)
+(* obligations not yet discharged on this connection, in the order         *)
+(*      clr (clear restart) < dis (disable unsolicited) < integ < en       *)
+(* On a new connection need = the configured ones of {dis, integ, en}.  A  *)
+(* processed response (the answer to the outstanding request, or an        *)
+(* unsolicited fragment of a known outstation) that shows the restart      *)
+(* indication adds clr and the configured ones of {integ, en}.  An         *)
+(* obligation is discharged by the success of its task (for clr: by an     *)
+(* answer that no longer shows the indication; an IIN2 rejection of a      *)
+(* non-read automatic task also discharges it - the function is not        *)
+(* supported).                                                             *)
+(*   order                 an automatic task started while an obligation   *)
+(*                         ahead of it is open                             *)
+(*   poll-before-startup   a periodic poll / event scan started while any  *)
+(*                         obligation is open                              *)
+(*   unsol-before-integrity  unsolicited data delivered or confirmed       *)
+(*                         before the integrity poll completed             *)
+(*   null-unconfirmed      an empty unsolicited response with CON not      *)
+(*                         confirmed                                       *)
+(*   backoff-early / backoff-shape                                         *)
+(*                         the k-th consecutive failure of an automatic    *)
+(*                         task is followed by a retry no earlier than     *)
+(*                         min(max, min * 2^(k-1)) after the failure       *)
+(***************************************************************************)
+EXTENDS MMonBase
+
+AutoOf(name) == CASE name = "ClearRestartBit" -> "clr" [] name = "DisableUnsolicited" -> "dis"
+                  [] name = "StartupIntegrity" -> "integ" [] name = "EnableUnsolicited" -> "en"
+                  [] name = "AutoEventScan" -> "evscan" [] name = "PeriodicPoll" -> "poll" [] OTHER -> ""
+Rank(n) == CASE n = "clr" -> 1 [] n = "dis" -> 2 [] n = "integ" -> 3 [] n = "time" -> 4 [] n = "en" -> 5 [] OTHER -> 9
+
+AInit(c) == [a |-> c.addr, need |-> {}, integDone |-> FALSE, amb |-> FALSE,
+             fk |-> [n \in {"clr", "dis", "integ", "en", "evscan"} |-> 0],      \* consecutive failures
+             ft |-> [n \in {"clr", "dis", "integ", "en", "evscan"} |-> 0]]      \* time of the last one
+MonInit == [cfg |-> [assocs |-> <<>>], sc |-> "", viol |-> <<>>, out |-> NoOut, A |-> <<>>,
+            up |-> FALSE, en |-> TRUE, pipe |-> FALSE]
+V(m, reason, l, ctx) == [m EXCEPT !.viol = Append(@, Viol("C17", reason, l, m.sc, ctx))]
+
+Ix(m, addr) == IF \E i \in 1..Len(m.A) : m.A[i].a = addr THEN CHOOSE i \in 1..Len(m.A) : m.A[i].a = addr ELSE 0
+Configured(c) == (IF c.dis THEN {"dis"} ELSE {}) \cup (IF c.integ THEN {"integ"} ELSE {}) \cup (IF c.en THEN {"en"} ELSE {})
+Pow2(k) == IF k <= 1 THEN 1 ELSE IF k = 2 THEN 2 ELSE IF k = 3 THEN 4 ELSE IF k = 4 THEN 8 ELSE IF k = 5 THEN 16 ELSE 1024
+Delay(c, k) == IF c.rmin * Pow2(k) > c.rmax THEN c.rmax ELSE c.rmin * Pow2(k)
+
+Connect(m) == [m EXCEPT !.A = [i \in 1..Len(@) |->
+                  [AInit(m.cfg.assocs[i]) EXCEPT !.need = Configured(m.cfg.assocs[i])]]]
+
+\* restart indication in a processed response
+SawRestart(m, i) ==
+    IF "clr" \in m.A[i].need THEN m
+    ELSE [m EXCEPT !.A[i].need = @ \cup {"clr"} \cup (Configured(m.cfg.assocs[i]) \ {"dis"}), !.A[i].integDone = FALSE]
+
+\* one callback, in order
+CbStep(m, e, c, l) ==
+    IF c.k # "ai" \/ c.n \notin {"task_start", "task_success", "task_fail"} THEN m
+    ELSE
+    LET i == Ix(m, c.i[1])
+        n == AutoOf(c.s)
+    IN IF i = 0 \/ n = "" THEN m
+    ELSE
+    LET A == m.A[i]
+        cfg == m.cfg.assocs[i]
+    IN
+    IF c.n = "task_start" THEN
+        IF A.amb THEN m
+        ELSE IF n \in {"poll", "evscan"} THEN
+            IF A.need # {} THEN V(m, "poll-before-startup", l, "a poll started while start-up / restart obligations are open: " \o c.s) ELSE m
+        ELSE
+            LET m1 == IF \E x \in A.need : Rank(x) < Rank(n)
+                        THEN V(m, "order", l, "automatic task started out of order: " \o c.s) ELSE m
+                m2 == IF A.fk[n] > 0 /\ c.t < A.ft[n] + Delay(cfg, A.fk[n])
+                        THEN V(m1, "backoff-early", l, "failed automatic task retried before its back-off delay: " \o c.s) ELSE m1
+            IN m2
+    ELSE IF c.n = "task_success" THEN
+        IF n \in {"poll"} THEN m
+        ELSE LET stillRst == n = "clr" /\ e.k = "rx" /\ e.rx.iin.rst
+             IN IF stillRst THEN [m EXCEPT !.A[i].fk[n] = @ + 1, !.A[i].ft[n] = c.t]
+                ELSE [m EXCEPT !.A[i].need = @ \ {n}, !.A[i].fk[n] = 0,
+                               !.A[i].integDone = IF n = "integ" THEN TRUE ELSE @]
+    ELSE \* task_fail
+        IF n = "poll" THEN m
+        ELSE IF c.x = "RejectedByIin2" /\ n \in {"clr", "dis", "en"}
+            THEN [m EXCEPT !.A[i].need = @ \ {n}, !.A[i].fk[n] = 0]
+        ELSE [m EXCEPT !.A[i].fk[n] = @ + 1, !.A[i].ft[n] = c.t]
+
+RECURSIVE Cbs(_, _, _, _)
+Cbs(m, e, cs, l) == IF cs = <<>> THEN m ELSE Cbs(CbStep(m, e, Head(cs), l), e, Tail(cs), l)
+
+MonStep(m, e, l) ==
+    IF e.k = "reset" THEN [MonInit EXCEPT !.cfg = e.cfg, !.sc = e.id, !.viol = m.viol, !.en = e.cfg.enabled,
+                                          !.A = [i \in 1..Len(e.cfg.assocs) |-> AInit(e.cfg.assocs[i])]]
+    ELSE IF ~HasOutputs(e) THEN m
+    ELSE
+    LET up1 == CASE e.k = "conn" -> m.up \/ m.en [] e.k = "enable" -> m.up \/ m.pipe
+                 [] e.k \in {"cut", "disable"} -> FALSE [] OTHER -> m.up
+        pipe1 == CASE e.k = "conn" -> ~m.up /\ ~m.en [] e.k \in {"enable", "cut"} -> FALSE [] OTHER -> m.pipe
+        en1 == CASE e.k = "enable" -> TRUE [] e.k = "disable" -> FALSE [] OTHER -> m.en
+        \* a new session starts: obligations as configured, failure counts forgotten
+        mS == IF up1 /\ ~m.up THEN Connect(m) ELSE m
+        \* the fragment of this line
+        isRx == e.k = "rx" /\ ~e.rx.noconn /\ e.rx.fc # -1
+        i == IF isRx THEN Ix(mS, e.rx.src) ELSE 0
+        unsol == isRx /\ e.rx.fc = 130 /\ e.rx.uns /\ e.rx.body # "hdrbad" /\ i # 0
+        answer == isRx /\ e.rx.fc = 129 /\ i # 0 /\ Answers(mS.out, [e.rx EXCEPT !.body = IF @ = "bad" THEN "data" ELSE @])
+        mA == IF answer /\ e.rx.body = "bad" /\ e.rx.iin.rst THEN [mS EXCEPT !.A[i].amb = TRUE] ELSE mS
+        mR == IF (unsol \/ (answer /\ e.rx.body # "bad")) /\ e.rx.iin.rst THEN SawRestart(mA, i) ELSE mA
+        \* gating of unsolicited data
+        gated == unsol /\ mR.cfg.assocs[i].integ /\ ~mR.A[i].integDone /\ e.rx.body # "empty" /\ ~mR.A[i].amb
+        uc == IF isRx THEN Confirms(e, TRUE, e.rx.seq, e.rx.src) ELSE <<>>
+        mG == IF gated /\ (UnsolBegins(e) # <<>> \/ uc # <<>>)
+                THEN V(mR, "unsol-before-integrity", l, "unsolicited data delivered or confirmed before the integrity poll completed")
+                ELSE mR
+        mN == IF unsol /\ e.rx.body = "empty" /\ e.rx.con /\ Len(uc) # 1
+                THEN V(mG, "null-unconfirmed", l, "an empty unsolicited response with CON must be confirmed") ELSE mG
+        mC == Cbs(mN, e, e.cb, l)
+    IN [mC EXCEPT !.out = TrackOut(m.out, e), !.up = up1, !.pipe = pipe1, !.en = en1]
+
+Claimed == {"C17"}
 =============================================================================
